@@ -169,7 +169,39 @@ def run(chk):
     check_cases(chk, cases)
     check_short_coefficients(chk)
     codec.check_inplace(chk, "C02", 200 if chk.tier == "quick" else 3000)
+    boundary_labels(chk)
     check_capture(chk)
+
+
+def boundary_labels(chk):
+    """a text of exactly the field's width cannot be stored (no room for the terminator): the block must be refused
+    at encoding time — or, if it is written, its size must still be right"""
+    rng = common.rng_for(chk.seed, "C02-boundary")
+    spots = {"D3": (9, 0, 256), "EM": (5, 0, 256), "FT": (8, 0, 256), "PC": (3, 0, 256), "EV": (2, 0, 256), "OS": (2, 2, 32)}
+    for kind, (ik, pos, width) in spots.items():
+        for extra in (0, 1):
+            for _ in range(50):
+                fmt, v = blocks.gen(kind, rng, big=3)
+                if v[ik]:
+                    break
+            else:
+                continue
+            j = rng.randrange(len(v[ik]))
+            v[ik][j][pos] = [0x41 + (i % 26) for i in range(width + extra)]
+            chk.note_case(("boundary label", kind, width + extra), True)
+            chk.count("label of %s characters" % ("exactly the width" if extra == 0 else "width + 1"))
+            try:
+                o = blocks.build(kind, fmt, v)
+                raw = blocks.impl_write(o)
+            except ValueError:
+                continue
+            except Exception as e:
+                chk.violation("C02 %s: a %d-character label in a %d-byte field raised %s" % (kind, width + extra, width, common.exc_info(e)),
+                              {"kind": kind, "fmt": fmt, "v": v}, True)
+                continue
+            nb = int(o.nBytes)
+            chk.violation("C02 %s: a %d-character label in a %d-byte field was written (%d bytes, nBytes %d): the text spills "
+                          "out of its field" % (kind, width + extra, width, len(raw), nb), {"kind": kind, "fmt": fmt, "v": v}, True)
 
 
 def replay(chk, path):
